@@ -97,6 +97,12 @@ def templates(tier, seed=0):
         lad.append(('if' if i == 0 else '} else if') + ' s == %d {' % i); lad += ['    ' + l for l in b.split('\n')]
     lad.append('}')
     ts.append({'name': 'misplaced', 'src': '\n'.join(['s := @h0@', 'xs := [1]'] + lad + ['print(9)']) + '\n', 'assume': lambda v: [v['h0'] >= 0, v['h0'] <= len(bads)]})
+    # spread / collect in a place where the grammar has no room for it: rejected before anything runs (one program each)
+    cands = ['print(g(..xs))', 'print(g(1, ..xs))', '[..a, b] := [1, 2]', 'x := [1, ..xs, 2]', 'x := [..xs, 1]', 'x := {..o, "a": 1}', 'x := {"a": 1, ..o}', 'fn h(..r, a) {\n    return a\n}', 'fn h(a, ..r, ..q) {\n    return a\n}',
+             'print(g(xs.. ..))', 'print(g(..xs..))', '[a, ..r..] := xs', 'x := [xs....]', 'for [i, ..v] in xs {\n    print(v)\n}', 'for ..v in xs {\n    print(v)\n}', '..r := xs', 'x := ..xs', 'x := xs..', 'print(xs..)', 'return ..xs',
+             '{a, ..r, ..q} := o', 'x := [..]', 'print(g(..))', 'print(g(1, 2, ..xs))', 'x := fn (a, ..) {\n    return a\n}', 'o.f(..xs)', 'print(o["a"](..xs))']
+    for i, cnd in enumerate(cands):
+        ts.append({'name': 'misplaced-form-%d' % i, 'src': 'xs := [1, 2]\no := {"a": 1}\nfn g(a, b) {\n    return a\n}\nprint(@h10@)\n' + cnd + '\nprint(2)\n'})
     return ts
 
 def role(v):
